@@ -392,10 +392,12 @@ class Ctx:
 
     # -- known findings -------------------------------------------------------------------------
     def known_findings(self):
-        p = os.path.join(VERIF, "known_findings.json")
-        if not os.path.exists(p):
-            return []
-        return [e for e in json.load(open(p)).get("entries", []) if e.get("property") == self.prop and e.get("kind") == "finding"]
+        import glob
+        ents = []
+        for p in [os.path.join(VERIF, "known_findings.json")] + sorted(glob.glob(os.path.join(VERIF, "known_findings.d", "*.json"))):
+            if os.path.exists(p):
+                ents.extend(json.load(open(p)).get("entries", []))
+        return [e for e in ents if e.get("property") == self.prop and e.get("kind") == "finding"]
 
     def match_known(self, site, cls):
         for e in self.known_findings():
@@ -421,7 +423,7 @@ class Ctx:
         rc = 0
         os.makedirs(os.path.join(VERIF, "replays"), exist_ok=True)
         # concrete failing inputs first
-        vs = sorted(self.violations, key=lambda v: v["no_input"])
+        vs = sorted(self.violations, key=lambda v: (v["no_input"], len(json.dumps(v["replay"], default=str))))
         if vs:
             v = vs[0]
             path = os.path.join(VERIF, "replays", "%s-%s-%d.json" % (self.prop, self.tier, self.seed))
